@@ -370,7 +370,7 @@ async def sum(iterable: AnyIterable[Any], start: Any = 0) -> Any:
     """
     total = start
     async for item in aiter(iterable):
-        total += item
+        total = total + item
     return total
 
 
